@@ -4,7 +4,7 @@ import ast
 from ..common import *
 from ..errors import AnalysisError
 from ..interp import State
-from ..alloc import alloc_func, alloc_trace, allocation_sites, walk_alts, permutation_sorters
+from ..alloc import alloc_func, alloc_trace, allocation_sites, walk_alts, permutation_sorters, alloc_inline
 from ..simstruct import loop_paths
 
 CLAIM = ("Every armed rule instance held (apart from listed known findings): (R13.1) placed_workplace / placed_component_list are "
@@ -102,6 +102,28 @@ def move_sites(ctx):
     return f, out
 
 
+def implied_atoms(conds):
+    """What the path conditions imply, atom by atom: [(source text of the atom, truth)] -- `not`, `and` (when true) and `or`
+    (when false) are taken apart, so a guard clause `if not x.ok(): return` and a nested `if x.ok():` give the same atoms."""
+    out = []
+
+    def go(t, truth):
+        if isinstance(t, ast.UnaryOp) and isinstance(t.op, ast.Not):
+            go(t.operand, not truth)
+        elif isinstance(t, ast.BoolOp) and ((isinstance(t.op, ast.And) and truth) or (isinstance(t.op, ast.Or) and not truth)):
+            for v in t.values:
+                go(v, truth)
+        else:
+            out.append((ast.unparse(t), truth))
+    for c in conds:
+        test = getattr(c.node, "test", None)
+        if test is not None:
+            go(test, c.truth)
+        else:
+            out.append((c.text, c.truth))
+    return out
+
+
 def r13_3(ctx):
     ctx.begin("R13.3", "move guard: is_ready, conveyor rule, can_put, one move per task", floor=4)
     f, sites = move_sites(ctx)
@@ -109,11 +131,12 @@ def r13_3(ctx):
     for tr, loops, before, ex, put in sites:
         ctx.instance(construct(f, f"move@{put.node.lineno}"), sample={"exit": ex[0] if ex else None})
         conds = [e for e in list(before) + list(tr) if isinstance(e, Cond)]
-        if not any("is_ready()" in c.text and c.truth for c in conds):
+        atoms = implied_atoms(conds)
+        if not any("is_ready()" in t and truth for t, truth in atoms):
             ctx.violation(construct(f, "move-without-is_ready"), put.loc, "a component can be moved without component.is_ready() being true (e.g. while one of its tasks is WORKING)")
-        if not any("can_put" in c.text and c.truth for c in conds):
+        if not any("can_put" in t and truth for t, truth in atoms):
             ctx.violation(construct(f, "move-without-can_put"), put.loc, "a component can be moved to a workplace without workplace.can_put(component) being true (capacity)")
-        if ex is None or ex[0] != "break":
+        if ex is None or ex[0] not in ("break", "return"):   # (`return` when the move block is a helper of its own)
             ctx.violation(construct(f, "move-no-break"), put.loc, "after moving a component the candidate-workplace loop goes on: the component can move more than once per step")
     # is_ready table
     g = ctx.repo.method(COMPONENT, "is_ready")
@@ -159,7 +182,7 @@ def r13_3(ctx):
             st0.facts["<Cm>.is_ready()"] = (True, frozenset())
             st0.facts["<B>.can_put(<Cm>)"] = (True, frozenset())
             I = mk_interp(ctx, collections={"self.workflow.task_list": [T], "self.organization.team_list": [], "self.organization.workplace_list": [A, B, C3]},
-                          call_hook=hook, distinct_objs=True, havoc_on_call=False)
+                          call_hook=hook, distinct_objs=True, havoc_on_call=False, inline=alloc_inline(ctx), max_depth=3)
             outs = I.run_function(f, bind={"__defaults__": True}, st=st0)
             moved = set()
             for st, ex in outs:
@@ -248,31 +271,28 @@ def r13_5(ctx):
 
 
 def guard_reads(ctx, f):
-    """Attribute names read (transitively) by the condition that guards the move block."""
+    """Attribute names read (transitively) by the predicates about the moved component that are known to hold when it is
+    moved (the facts the interpreter carries to the move call: however the guard is written -- nested ifs, guard clauses,
+    a helper method).  -> (location node, reads)"""
+    _f, sites = move_sites(ctx)
     reads, node = set(), None
-    pm = parent_map(f.node)
-    moves = [c for c in ast.walk(f.node) if isinstance(c, ast.Call) and isinstance(c.func, ast.Attribute) and c.func.attr == "set_placed_workplace"
-             and c.args and not (isinstance(c.args[0], ast.Constant) and c.args[0].value is None)]
-    guards = []
-    for mv in moves:
-        g = pm.get(id(mv))
-        while g is not None and g is not f.node:
-            if isinstance(g, ast.If):
-                guards.append(g)
-            g = pm.get(id(g))
-    for n in guards:
-        if True:
-            node = n if node is None or n.lineno < node.lineno else node
-            ft = ctx.types.ftypes(f)
-            for x in ast.walk(n.test):
-                if isinstance(x, ast.Attribute) and isinstance(x.ctx, ast.Load):
-                    reads.add(x.attr)
-                if isinstance(x, ast.Call):
-                    callees, _ = ft.resolve_call(x)
-                    for c in callees:
-                        for g in ctx.eff.reachable([c], precise=True):
-                            reads |= {e.attr for e in ctx.eff.of(g) if e.kind == "read"}
+    for tr, loops, before, ex, put in sites:
+        comp = put.recv if put.callees and put.callees[0].endswith("set_placed_workplace") else None
+        if not isinstance(comp, Obj):
+            continue
+        node = put.node if node is None else node
+        for k, (truth, deps) in put.facts.items():
+            if ("<" + comp.name + ">") in k:
+                reads |= set(deps)
     return node, reads
+
+
+def move_loc(ctx, node):
+    _f, sites = move_sites(ctx)
+    for tr, loops, before, ex, put in sites:
+        if put.node is node:
+            return put.loc
+    return _f.loc(node)
 
 
 def r13_6_7_8(ctx):
@@ -284,7 +304,7 @@ def r13_6_7_8(ctx):
     recursive = any(isinstance(n, ast.For) and "child_component_list" in ast.unparse(n.iter) for n in ast.walk(setter.node))
     ctx.instance(construct(f, "move-guard-scope"), sample={"guard_reads": sorted(reads)[:12], "move_recursive": recursive})
     if recursive and "child_component_list" not in reads:
-        ctx.violation(construct(f, "move-guard-ignores-descendants"), f.loc(node),
+        ctx.violation(construct(f, "move-guard-ignores-descendants"), move_loc(ctx, node),
                       "a move re-locates the component and all its descendants (set_placed_workplace descends over child_component_list) but the guard only looks at the "
                       "component's own tasks: a child whose task is WORKING is dragged to another workplace together with its parent")
     ctx.end()
@@ -293,7 +313,7 @@ def r13_6_7_8(ctx):
     alloc_writes = {"allocated_worker_list", "allocated_facility_list", "assigned_task_list"}
     marker = False
     if not (reads & alloc_writes) and not marker:
-        ctx.violation(construct(f, "placement-guard"), f.loc(node),
+        ctx.violation(construct(f, "placement-guard"), move_loc(ctx, node),
                       "the move guard reads only task states, which change after allocation: a second READY task of the same component moves it away after the first task was "
                       "given a facility of the old workplace in the same step")
     ctx.end()
@@ -356,7 +376,7 @@ def r13_9(ctx):
         st0.facts["<P>.is_ready()"] = (True, frozenset())
         st0.facts["<NEW>.can_put(<P>)"] = (True, frozenset())
         I = mk_interp(ctx, collections={"self.workflow.task_list": [T], "self.organization.team_list": [], "self.organization.workplace_list": [OLD, NEW]},
-                      call_hook=hook, distinct_objs=True, havoc_on_call=False, inline=lambda call, callee, depth: callee.name in placing, max_depth=5)
+                      call_hook=hook, distinct_objs=True, havoc_on_call=False, inline=alloc_inline(ctx, lambda call, callee, depth: callee.name in placing), max_depth=6)
         outs = I.run_function(f, bind={"__defaults__": True}, st=st0)
         moved = 0
         for st, ex in outs:
